@@ -470,6 +470,20 @@ def judge_sdec(ctx, c):
             ctx.mismatch(f'C11|scaled-decode:{route}|{fmt}:{value_class(v)}/scale-{sclass}|{shape}',
                          dict(c, lo=code, hi=code + 1),
                          f'{c["nm"]} scale={scale!r} code {code:#x} route={route}: got {got!r} expected {exp!r}')
+        # ... and the plain format is still plain afterwards, also after a scaled Dtype was asked for FROM the plain Dtype object
+        plain = Dtype(c['nm'])
+        call(lambda: Dtype(plain, scale=scale))
+        again = Dtype(c['nm'])
+        back = lib_decode(route, c['cls'], fmt, c['nm'], codes[:3])
+        want = [mf.to_float(codec.decode(k)) for k in codes[:3]]
+        if plain.scale is not None or again.scale is not None or back[0] != 'ok' or not all(same_number(w, g) for w, g in zip(want, back[1])):
+            ctx.mismatch(f'C11|plain-dtype-after-scaled-use|{fmt}|scale-stuck-to-the-plain-format', c,
+                         f'{c["nm"]}: scale now {again.scale!r}, codes {codes[:3]} decode to {back[1]!r:.80} expected {want!r:.80}')
+            for _, c_ in util.find_caches():
+                c_.cache_clear()
+            plain._set_scale(None) if hasattr(plain, '_set_scale') else None
+        else:
+            ctx.ok(f'{fmt}|plain-after-scaled|{route}', True)
 
 
 def judge_senc(ctx, c):
